@@ -23,6 +23,13 @@ CLAIMED["C13"] = (
     "Trusted: Lean kernel (+propext, Classical.choice, Quot.sound); the hand-written model of rate_limit.update/delay.cb and tornado Queue/gen.sleep; timers fire at their due time on the virtual loop (real timer lateness is not modelled); CPython 3.12 asyncio private attributes used by the virtual loop.",
 )
 
+CLAIMED["C18"] = (
+    "DESIGN.md section 5, C18",
+    "Lean 4 theorems over a hand-written labelled-transition model of Source.start/stop/run and from_iterable (invariants over every history of start | stop | resume i) + trace-acceptance correspondence against the real sources on a virtual-time loop with start/stop placed at every suspension point",
+    "Proof: for every history at most one run() invocation is live (poll_at_most_one_loop, iter_at_most_one_loop), no polling cycle begins between a stop and the next start, redundant start/stop are identities, from_iterable emits a prefix of its items in order and takes the next item only when nothing is pending downstream; the original (pre-fix) mechanism is kept as a second model with the negation proved on a concrete witness (orig_two_live_loops, orig_iter_interleaves). Tied to the code by cutting the observed log of the real sources into model actions and comparing events, `stopped` and `_run_live` after every action.",
+    "Trusted: Lean kernel (+propext, Classical.choice, Quot.sound); the hand-written model (a polling cycle is atomic; one loop thread only); sources that override start/stop themselves (kafka, tcp, http, websocket) are not covered; virtual loop relies on CPython 3.12 asyncio internals.",
+)
+
 NOT_YET = {}
 
 
